@@ -79,3 +79,7 @@ impl WeakCounterMarker {
         }
     }
 }
+
+#[cfg(kani)]
+#[path = "/verif/kani/weak_counter_marker_proofs.rs"]
+pub(crate) mod verif_proofs; // verification hook (H2): specs and contract harnesses live in /verif
